@@ -459,7 +459,7 @@ class Fn:
                     info["calls"].append((d[1], t))
                     for a in t["args"]:
                         self._op_deps(a, work, info)
-            if mut_calls and through_calls:
+            if mut_calls and through_calls and (mut_calls is True or mut_calls(l)):
                 for b, t in self.mut_calls().get(l, []):
                     if (b, t) not in info["calls"]:
                         info["calls"].append((b, t))
